@@ -22,10 +22,14 @@ HTTP_CLASSES = sorted(set(cerrors.__all__) | set(['NotFound', 'InternalServerErr
 HTTP_CLASSES = [n for n in HTTP_CLASSES if isinstance(getattr(cerrors, n, None), type)
                 and issubclass(getattr(cerrors, n), cerrors.HTTPException)]
 VALUES = ['resp', 'resp', 'baseresp', 'str', 'none', 'number', 'dict', 'bytes', 'list']
-MSGS = {'plain': 'injected failure', 'nonascii': 'défaillance ☃ 中文', 'huge': 'x' * (1 << 20),
+MSGS = {'half-emoji': 'cut \ud83d here', 'plain': 'injected failure', 'nonascii': 'défaillance ☃ 中文', 'huge': 'x' * (1 << 20),
         'unprintable': 'ctl\x00\x01\x1b[31m\x7f\udcff', 'braces': '{0} {x} %s %(y)s </pre><script>', 'empty': ''}
 HANDLERS = ['default', 'default', 'debug', 'reraise', 're_raises', 're_raises_http', 're_other']
 ACCEPTS = [None, 'text/html', 'application/json', 'application/xml', 'text/plain', '*/*', 'image/png', 'garbage;;q=x']
+
+
+ODD_SEGMENTS = ['/num/7', '/num/abc', '/num/+%205', '/num/-3', '/num/1_0', '/num/' + '9' * 5000, '/num/\uff11\uff12', '/num/0x10', '/num/1e3', '/num/%20',
+                '/fl/1.5', '/fl/nan/a/b', '/fl/1e5', '/fl/1_0.5', '/fl/inf', '/fl/-', '/fl/.', '/fl/1.2.3', '/fl/' + '1' * 400 + 'e400', '/fl/%2B1.0/x']
 
 
 def make_decliner():
@@ -112,6 +116,9 @@ def build_app(cfg):
                         GET('/item', make_function('ITEM_GET', False, default_value='resp', bound=False)),
                         POST('/item', make_function('ITEM_POST', False, default_value='resp', bound=False)),
                         # a route that always declines with the shared error object, followed by one that answers POST only
+                        # typed URL bindings: a segment the pattern lets through is not necessarily one the converter takes
+                        ('/num/<n:int>', make_function('NUM', False, params_req=('n',), default_value='resp', bound=False)),
+                        ('/fl/<x:float>/<rest*>', make_function('FL', False, params_req=('x', 'rest'), default_value='resp', bound=False)),
                         ('/decl', make_decliner()),
                         POST('/decl', make_function('DECL_POST', False, default_value='resp', bound=False))],
                        middlewares=objs('app'), error_handler=eh, **kw)
@@ -144,6 +151,8 @@ def expected(cfg, op):
         out = dispatch_outcome(app_fn, app_fn, faults, 'resp', False)
     elif path == '/decl':
         return ('status', 200) if method == 'POST' else http(404)
+    elif path.startswith(('/num/', '/fl/')):
+        return ('status-in', (200, 404) if handler != 're_other' else (200, 502))     # which of the two is C04/C05 territory
     elif path != '/x':
         return http(404)
     else:
@@ -180,7 +189,7 @@ class C08(Check):
     level_text = ('Every position of each generated stack is faulted once per run (fault_enumeration over positions); behaviours, '
                   'handlers, messages and histories are sampled by seed; each faulty request is followed by recovery probes.')
     level_note = 'Trusted: the outcome model (~60 lines, from the property text); the gateway monitor.'
-    required_probes = ('concurrent-faulted-requests', 'handler-installed-as-type-on-application-subclass', 'tracebacklimit-set', 'debug-handler-without-frames', 'other-application-in-process', 'escaped-original-exception', 'render-error-fallback', 'handler-replaced-error', 'recovered',
+    required_probes = ('typed-binding-odd-segment', 'concurrent-faulted-requests', 'handler-installed-as-type-on-application-subclass', 'tracebacklimit-set', 'debug-handler-without-frames', 'other-application-in-process', 'escaped-original-exception', 'render-error-fallback', 'handler-replaced-error', 'recovered',
                        'nonbreaking-http', 'huge-message')
 
     def gen_config(self, rng):
@@ -233,6 +242,8 @@ class C08(Check):
             if rng.random() < 0.3:
                 ops.append({'method': rng.choice(['GET', 'DELETE', 'PUT']), 'path': rng.choice(['/nope', '/only-post', '/x/y', '/item', '/item', '/decl']),
                             'accept': rng.choice(ACCEPTS), 'faults': {}})
+            if rng.random() < 0.25:
+                ops.append({'method': 'GET', 'path': rng.choice(ODD_SEGMENTS), 'accept': rng.choice(ACCEPTS), 'faults': {}})
         # something happens to ANOTHER application of the same process (default handler, dev server with debugger)
         if rng.random() < 0.5:
             ops.insert(rng.randint(0, len(ops)), {'other_app': rng.choice(['serve-debugger', 'serve-plain', 'construct-debug', 'reraise-handler'])})
@@ -363,6 +374,16 @@ class C08(Check):
                                                  f.get('exc') or f.get('value'), exp))
             ctx = 'step %d %s %s handler=%s faults=%s' % (step, op['method'], op['path'], cfg['handler'], canon(op['faults'])[:300])
             where = self.where(op, fired)
+            if exp[0] == 'status-in':
+                res.probe('typed-binding-odd-segment')
+                if ex.escaped is not None:
+                    res.violate(K + 'exception-escaped:%s@url-converter' % type(ex.escaped).__name__,
+                                ctx + ' -> %r escaped to the WSGI server (phase %s)' % (ex.escaped, ex.escaped_phase), step)
+                    break
+                if ex.code not in exp[1] or ex.errors or not ex.iter_done:
+                    res.violate(K + 'wrong-status:%s@url-converter' % ex.code, ctx + ' -> %s %r' % (ex.status, ex.errors[:1]), step)
+                    break
+                continue
             if exp[0] == 'status':
                 if ex.escaped is not None:
                     res.violate(K + 'exception-escaped:%s@%s' % (type(ex.escaped).__name__, where),
